@@ -43,12 +43,15 @@ MULTIPLIER = {
 # definition.  The predicates themselves are in _KNOWN_PREDICATES below.
 KNOWN_LIBRARY_DEVIATIONS = {
     "melody.empty_series_IndexError": (
-        "melody.to_cent_voicing / melody.evaluate with len(ref_time) == 0 or "
-        "len(est_time) == 0: the library raises IndexError (it reads time[0] "
+        "melody.to_cent_voicing / melody.evaluate with len(ref_time) == 0 (or "
+        "len(est_time) == 0): the library raises IndexError (it reads time[0] "
         "unconditionally) although every measure documents the value 0 for "
         "empty input ('When input arrays are empty, return 0 by special "
-        "case').  The oracle returns empty / zero-padded arrays and the "
-        "documented scores (recall 0, false alarm 0, accuracies 0)."),
+        "case').  Oracle: an empty reference gives four empty arrays and all "
+        "five scores 0.0 (margin inf).  For an empty estimate with a non-empty "
+        "reference the oracle zero-pads the estimate to the reference length "
+        "but reports margin 0, because the documentation supports two readings "
+        "(zero-padded estimate vs. 'empty estimate -> every score 0')."),
     "melody.resample_empty_target_ValueError": (
         "melody.resample_melody_series with len(times_new) == 0 and "
         "len(times) > 0 (time bases of different length): the library raises "
@@ -59,11 +62,13 @@ KNOWN_LIBRARY_DEVIATIONS = {
         "case above."),
     "melody.voicing_array_modified_in_place": (
         "melody.freq_to_voicing(frequencies, voicing) with voicing given and "
-        "some frequencies == 0 and voicing != 0 there (reached from "
+        "some frequencies == 0 where voicing != 0 (reached from "
         "to_cent_voicing / evaluate through est_voicing or ref_reward whenever "
         "the corresponding time[0] == 0, i.e. no time-0 sample is inserted): "
-        "the caller's voicing array is overwritten with zeros.  Returned "
-        "values agree with the oracle; only the side effect deviates."),
+        "the pinned snapshot overwrote the caller's voicing array with zeros; "
+        "returned values agree with the oracle, only the side effect deviates. "
+        "Repaired in /repo by commit 046c071; this self-test still checks every "
+        "library call for modified inputs and lists them if it reappears."),
     "multipitch.negative_frequency_accepted": (
         "multipitch.metrics with a frequency f < 0 and 20 <= |f| <= 5000 in "
         "any frame: validate() documents allow_negatives=False but "
@@ -788,7 +793,7 @@ def run(n_cases=N_CASES, seed=20261003, verbose=True):
                 st["known deviation"], st["UNEXPLAINED"]))
         print()
         if lib_mutations:
-            print("library modified its input arrays in place (KNOWN "
+            print("library modified its input arrays in place (see KNOWN "
                   "melody.voicing_array_modified_in_place):")
             for k, v in sorted(lib_mutations.items()):
                 print("   %-50s %d cases" % (k, v))
